@@ -53,6 +53,7 @@ class MUnit(vcgen.Unit):
         self.ev.ev_construct = self.ev_opaque
         self.ev.ev_this = self.ev_opaque
         self.on_exit = on_exit or {}
+        self.track_swaps = False
         self.buffers = {}      # member name -> extent spec (reallocatable buffer owned through a smart pointer)
         self.gen = 0
         self.exits = []
@@ -218,6 +219,25 @@ class MUnit(vcgen.Unit):
                 return self.apply_contract(cc, e, st)
             self.external_effects(args, st)
             return self.opaque_value(ty, st, "ret_" + name[5:])
+        if name in ("byteswap16", "byteswap32", "byteswap64") and len(args) == 2:
+            # in-place byte swap of a caller-owned buffer: an involution per width.  The unit keeps, per array,
+            # which swap is currently pending; every exit must see none pending (the input is restored).
+            self.ev.ev(args[0], st)
+            v = self.ev.ev(args[1], st)
+            if v.k == "ptr" and not str(v.arr).startswith("&"):      # &local: a by-value copy, not the caller's buffer
+                tag = getattr(st, "swaps", None)
+                tag = dict(tag) if tag else {}
+                cur = tag.get(v.arr)
+                if cur is None:
+                    tag[v.arr] = name
+                elif cur == name:
+                    tag.pop(v.arr)
+                else:
+                    tag[v.arr] = "corrupt(%s then %s)" % (cur, name)
+                st.swaps = tag
+                if v.arr in st.arrs:
+                    st.arrs[v.arr] = self.ev.fresh(v.arr + "_swapped", self.ev.arr_sort(v.arr))
+            return Val(IV(0), "opaque")
         if name == "handle_error":
             # util::handle_error(failure(...), ...) throws: the path ends here (exit kind "throw")
             self.exits.append(("throw", "throw", st.fork()))
@@ -347,6 +367,11 @@ class MUnit(vcgen.Unit):
                         self.errors.append("untranslatable return value: %s" % ex)
             else:
                 self.ret_states.append(([kind], s))
+            pend = getattr(s, "swaps", None)
+            if self.track_swaps:
+                self.ev.loc_label = "exit:" + kind
+                self.ev.oblige("S.restore", z3.BoolVal(not pend), s,
+                               "caller-owned buffers are byte-swapped back before returning (inputs unchanged)%s" % (": pending %r" % pend if pend else ""))
             for i, src in enumerate(srcs):
                 self.ev.loc_label = "exit:" + kind
                 try:
